@@ -175,10 +175,31 @@ impl Property for C10 {
         let config = DelaunayTriangulationConfig { snap_radius: 1e-4 * s };
         let want_area = polys.iter().map(twice_area_poly).sum::<i128>() as f64 * 0.5 * s * s;
         let stitch_check = |name: &str, ts: &[Triangle<f64>], want: f64, obs: &mut Obs| {
+            // input class for the known-findings matcher: the triangulation is not conforming (an edge of one
+            // triangle passes through a vertex of another: happens with collinear ring vertices)
+            let lat: Vec<[C; 3]> = ts.iter().filter_map(|t| Some([lookup(t.0)?, lookup(t.1)?, lookup(t.2)?])).collect();
+            let mut tj = false;
+            'outer: for t in &lat {
+                for e in 0..3 {
+                    let (a, b) = (t[e], t[(e + 1) % 3]);
+                    for u in &lat {
+                        for v in u {
+                            if *v != a && *v != b && on_segment_int(a, b, *v) {
+                                tj = true;
+                                break 'outer;
+                            }
+                        }
+                    }
+                }
+            }
+            let class = if tj { "|t-junction" } else { "" };
+            if tj {
+                obs.label("non-conforming-triangulation");
+            }
             match guard(std::panic::AssertUnwindSafe(|| ts.to_vec().stitch_triangulation())) {
                 Ok(Ok(mp)) => {
                     let a = mp.unsigned_area();
-                    obs.expect((a - want).abs() <= 1e-9 * want.abs() + 1e-12 * s * s, &format!("stitch({name})|area"), || format!("stitched area {a} vs {want}; {:?}; {}", mp, ctx()));
+                    obs.expect((a - want).abs() <= 1e-9 * want.abs() + 1e-12 * s * s, &format!("stitch({name})|area{class}"), || format!("stitched area {a} vs {want}; {:?}; {}", mp, ctx()));
                     obs.expect(mp.0.iter().all(|p| p.exterior().is_closed() && p.interiors().iter().all(|h| h.is_closed())), &format!("stitch({name})|ring-not-closed"), || ctx());
                 }
                 Ok(Err(e)) => {
